@@ -2,16 +2,18 @@
 From Coq Require Import ZArith NArith List Bool FMapPositive.
 Import ListNotations.
 Require Import Base Strings Builtins Interp.
+Require ImpSearch ModFS.
 
 Inductive kont := KCatch (h:error -> Comp value) (k:value -> Comp value) | KThen (k:value -> Comp value).
 Record frame := { fr_tid : option positive; fr_comp : Comp value; fr_konts : list kont }.
 Inductive event := EB (d:nat) (t:positive) (sp:span) | EA (d:nat) (t:positive) (sp:span) (kind:N).
 (* an open handle: which file, where, how it was opened, whether it has been closed; the BYTES live on the disk, so two handles on one file see each other *)
 Record handle := { h_path : list N; h_pos : Z; h_mode : Files.mode; h_closed : bool }.
-Record world := { w_in : list (list N); w_out : list N; w_disk : list (list N * list N); w_handles : list (positive * handle); w_nexth : positive }.
+Record world := { w_in : list (list N); w_out : list N; w_disk : list (list N * list N); w_handles : list (positive * handle); w_nexth : positive;
+                  w_mods : list (N * positive) (* module registry: file number -> the module's delayed expression *) }.
 (* a world with the given input and output and the files / handles of w *)
-Definition with_io (w:world) (i:list (list N)) (o:list N) : world := {| w_in := i; w_out := o; w_disk := w_disk w; w_handles := w_handles w; w_nexth := w_nexth w |}.
-Definition world_start (stdin:list (list N)) (disk:list (list N * list N)) : world := {| w_in := stdin; w_out := []; w_disk := disk; w_handles := []; w_nexth := 1 |}.
+Definition with_io (w:world) (i:list (list N)) (o:list N) : world := {| w_in := i; w_out := o; w_disk := w_disk w; w_handles := w_handles w; w_nexth := w_nexth w; w_mods := w_mods w |}.
+Definition world_start (stdin:list (list N)) (disk:list (list N * list N)) : world := {| w_in := stdin; w_out := []; w_disk := disk; w_handles := []; w_nexth := 1; w_mods := [] |}.
 Definition path_eqb (a b:list N) : bool := if list_eq_dec N.eq_dec a b then true else false.
 Fixpoint disk_get (d:list (list N * list N)) (p:list N) : option (list N) := match d with [] => None | (q, c) :: r => if path_eqb q p then Some c else disk_get r p end.
 Fixpoint disk_set (d:list (list N * list N)) (p c:list N) : list (list N * list N) :=
@@ -31,7 +33,7 @@ Definition wstep (w:world) (op:worldop) : world * (value + error) :=
       | None => (w, inr (os_error sp 2))
       | Some s => let i := w_nexth w in
           ({| w_in := w_in w; w_out := w_out w; w_disk := disk_set (w_disk w) p (Files.content s);
-              w_handles := (i, {| h_path := p; h_pos := Files.pos s; h_mode := m; h_closed := false |}) :: w_handles w; w_nexth := Pos.succ i |}, inl (VFun (FFile i)))
+              w_handles := (i, {| h_path := p; h_pos := Files.pos s; h_mode := m; h_closed := false |}) :: w_handles w; w_nexth := Pos.succ i; w_mods := w_mods w |}, inl (VFun (FFile i)))
       end
   | WFile sp i o =>                                   (* FilesTotal.xstep on (bytes on disk, position of the handle) *)
       match handle_get (w_handles w) i with
@@ -41,13 +43,40 @@ Definition wstep (w:world) (op:worldop) : world * (value + error) :=
           let '(xs', r) := FilesTotal.xstep {| FilesTotal.xs := {| Files.content := c; Files.pos := h_pos hd; Files.fmode := h_mode hd |}; FilesTotal.xclosed := h_closed hd |} o in
           let w' := {| w_in := w_in w; w_out := w_out w; w_disk := disk_set (w_disk w) (h_path hd) (Files.content (FilesTotal.xs xs'));
                        w_handles := handle_set (w_handles w) i {| h_path := h_path hd; h_pos := Files.pos (FilesTotal.xs xs'); h_mode := h_mode hd; h_closed := FilesTotal.xclosed xs' |};
-                       w_nexth := w_nexth w |} in
+                       w_nexth := w_nexth w; w_mods := w_mods w |} in
           match r with
           | FilesTotal.XVal v => (w', inl (val_of_result v))
           | FilesTotal.XNil => (w', inl VNil)
           | FilesTotal.XErr e => (w, inr (os_error sp e)) end
       end
+  | WFind sp lits =>                                  (* module._search_file_from_literal from "." : ImpSearch.search over the tree the disk denotes *)
+      match ImpSearch.search lits (ModFS.tree_of_disk (w_disk w)) with
+      | ImpSearch.Found _ id => (w, match nth_error (w_disk w) (N.to_nat id) with Some (nm, _) => inl (VStr (46 :: 47 :: nm)%N) | None => inr (mkerr c_notfound sp) end)
+      | ImpSearch.NotFound => (w, inr (mkerr c_notfound sp))
+      | ImpSearch.Ambiguous => (w, inr (mkerr c_import sp)) end
+  | WLoad sp path =>                                  (* module._load_from_path up to the parse: registry first (by FILE, os.path.samefile), else the text *)
+      let p := ModFS.strip_dot path in
+      match ModFS.index_of (w_disk w) p 0 with
+      | None => (w, inr (os_error sp (ModFS.open_errno (w_disk w) p)))
+      | Some (id, bytes) =>
+          match ModFS.mod_get (w_mods w) id with
+          | Some t => (w, inl (VThunk t))
+          | None => (w, match ModFS.text_of bytes with Some text => inl (VStr text) | None => inr (mkerr c_import sp) end) end
+      end
+  | WRegister path t =>
+      match ModFS.index_of (w_disk w) (ModFS.strip_dot path) 0 with
+      | Some (id, _) => ({| w_in := w_in w; w_out := w_out w; w_disk := w_disk w; w_handles := w_handles w; w_nexth := w_nexth w; w_mods := (id, t) :: w_mods w |}, inl VNil)
+      | None => (w, inl VNil) end
   end.
+(* what evaluation may not touch: input, output, files, handles *)
+Definition io_of (w:world) := (w_in w, w_out w, w_disk w, w_handles w, w_nexth w).
+Lemma module_op_keeps_io w op : module_op op = true -> io_of (fst (wstep w op)) = io_of w.
+Proof.
+  destruct op; try discriminate; intros _; cbn [wstep].
+  - destruct (ImpSearch.search _ _); reflexivity.
+  - destruct (ModFS.index_of _ _ _) as [[id b]|]; [destruct (ModFS.mod_get _ _)|]; reflexivity.
+  - destruct (ModFS.index_of _ _ _) as [[id b]|]; reflexivity.
+Qed.
 Record dbg := { depth : nat; dstack : list (list positive); events : list event (* newest first *) }.
 Record mstate := { m_heap : heap; m_req : PositiveMap.t positive; m_stack : list frame (* top first; the last one is the head coroutine *);
                    m_world : world; m_dbg : dbg }.
